@@ -70,6 +70,39 @@ def _btor_opt(name):
     return getattr(pyboolector.BtorOption, name)
 
 
+def _collect_fields(fm, field_s):
+    """Collects a field and all the fields below it"""
+    field_s.add(fm)
+    if hasattr(fm, "size") and isinstance(fm.size, FieldModel):
+        field_s.add(fm.size)
+    for f in getattr(fm, "field_l", []):
+        if f not in field_s:
+            _collect_fields(f, field_s)
+
+class _RefFieldCollector(ModelVisitor):
+    """Collects the fields referenced by constraint expressions"""
+    
+    def __init__(self):
+        super().__init__()
+        self.field_l = []
+        
+    def _add(self, fm):
+        if fm not in self.field_l:
+            self.field_l.append(fm)
+            for f in getattr(fm, "field_l", []):
+                self._add(f)
+        
+    def visit_expr_fieldref(self, e):
+        self._add(e.fm)
+        
+    def visit_expr_indexed_fieldref(self, e):
+        super().visit_expr_indexed_fieldref(e)
+        try:
+            self._add(e.get_target())
+        except Exception:
+            # Targets that depend on a foreach index resolve later
+            pass
+
 class Randomizer(RandIF):
     """Implements the core randomization algorithm"""
     
@@ -563,6 +596,19 @@ class Randomizer(RandIF):
             
         for c in constraint_l:
             clear_soft_priority.clear(c)
+            
+        if len(constraint_l) > 0:
+            # Fields that the inline constraints reference, but that are 
+            # not part of what this call randomizes, act as constants
+            target_s = set()
+            for fm in field_model_l:
+                _collect_fields(fm, target_s)
+            ref_v = _RefFieldCollector()
+            for c in constraint_l:
+                c.accept(ref_v)
+            for f in ref_v.field_l:
+                if f not in target_s:
+                    f.set_used_rand(False)
 
         # Collect all variables (pre-array) and establish bounds            
         bounds_v = VariableBoundVisitor()
